@@ -42,7 +42,12 @@ ASSUMPTIONS = [
     "nu = 0,1,2 inside, outside and at the nodes; bit-for-bit agreement is counted, 1e-12 of the family scale is demanded); the compiled "
     "_ppoly extension itself is outside the translator (no source installed) and tied by this run only",
     "scipy CubicHermiteSpline(x, y, dydx) has three required arguments (the model encodes the resulting TypeError of the 2-argument call)",
-    "numpy.linalg.lstsq returns the least-squares solution for full-column-rank systems (compared with the exact rational solution)",
+    "numpy.linalg.lstsq returns the least-squares solution for full-column-rank systems (compared with the exact rational solution), and "
+    "the zero solution without raising for a system with no rows (no volume block; compared on the shape-malformed stream)",
+    "malformed shapes (no volume block; a block with too few q-points / modes) are outside the property's quantifier: the real code's "
+    "exception class (ValueError of `[::0]`, IndexError of the first missing read in loop order, scipy's IndexError for "
+    "UnivariateSpline on empty arrays — that one supplied to the model as the library's outcome) is compared with the model's "
+    "`interpolateModesF` on every run; no oracle is attached to them",
     "scipy.interpolate.lagrange builds monomial coefficients around ln V ~ 6 and is ill-conditioned for >= 5 nodes: its rounding "
     "error is bounded a priori (eps * sum_j |y_j| prod_k (|x|+|x_k|)/|x_j-x_k|) and added to the tolerance of lagrange cases only",
     "numpy.linalg.lstsq on the Vandermonde matrix about ln V ~ 6: rounding bounded a priori by 0.5*eps*cond2(vander)*max|ln w| (values) and "
@@ -82,6 +87,17 @@ def _models():
 def make_qha_input(case):
     m = _models()
     vols = case["volumes"]
+    if case.get("ragged"):
+        # shape-malformed stream: the blocks as they are (any number of q-points per volume, any number of modes per q-point); the
+        # header fields nq / np are the case's, whatever the blocks hold
+        blocks = case["freqs"]
+        nq_h = case["nq"]
+        coords = [(0.0, 0.0, 0.0)] + [(0.1 * q, 0.05 * q, 0.0) for q in range(1, max(nq_h, 1) + 4)]
+        volumes = [m.VolumeData(0.0, float(vols[i]), -100.0 + 0.01 * i,
+                                [m.QPointData(coords[q], [float(x) for x in row]) for q, row in enumerate(blocks[i])])
+                   for i in range(len(vols))]
+        weights = [m.QPointWeight(coords[q], 1.0) for q in range(nq_h)]
+        return m.QHAInputData(len(vols), nq_h, case["np"], 1, case["np"] // 3, weights, volumes)
     fr = numpy.asarray(case["freqs"], dtype=float)
     nv, nq, np_ = fr.shape
     coords = [(0.0, 0.0, 0.0)] + [(0.1 * q, 0.05 * q, 0.0) for q in range(1, nq)]
@@ -275,6 +291,90 @@ def gen_malformed(ctx: Ctx) -> List[dict]:
             c["malformed"] = True; c["malformed_tag"] = tag
             out.append(c)
     return out
+
+
+SHAPE_KINDS = ("no-volume", "no-volume-order0", "short-qpoints", "short-modes", "short-gamma-acoustic-only")
+
+
+def first_missing(case):
+    """first (j, k, volume) in LOOP ORDER (j, then k, then file order of the volumes) at which `volume.q_points[j].modes[k]` does not
+    exist, skipping the Gamma-acoustic cells, which the loop never reads; None if every read succeeds.  Independent of code and model."""
+    for j in range(case["nq"]):
+        for k in range(case["np"]):
+            if j == 0 and k < 3:
+                continue
+            for i, block in enumerate(case["freqs"]):
+                if j >= len(block) or k >= len(block[j]):
+                    return (j, k, i)
+    return None
+
+
+def gen_shape_malformed(ctx: Ctx) -> List[dict]:
+    """inputs the reader never produces but `interpolate_modes` accepts as arguments: NO volume block at all; a block with too few
+    q-points; a q-point with too few modes (incl. one that lacks only Gamma-acoustic entries, which nobody reads).  Every method of the
+    table and a method string outside it.  Only the outcome (exception class, or the arrays when there is none) is compared."""
+    rng = ctx.rng
+    out = []
+    methods = METHODS + ["nosuchmethod"]
+    reps = 1 if not ctx.thorough() else 3
+    for _ in range(reps):
+        for method in methods:
+            base_m = method if method != "nosuchmethod" else "lsq_poly"
+            order = 2 if method in ("lsq_poly", "nosuchmethod") else 3
+            for kind in SHAPE_KINDS:
+                c = gen_case(rng, base_m, order, int(rng.choice([5, 6, 7])), "power", small=True)
+                c["method"] = method
+                blocks = [[list(map(float, row)) for row in vol] for vol in c["freqs"]]
+                nv, nq, np_ = len(blocks), c["nq"], c["np"]
+                if kind in ("no-volume", "no-volume-order0"):
+                    if kind == "no-volume-order0":
+                        if method not in NODE:
+                            continue
+                        c["order"] = 0
+                    c["volumes"], blocks = [], []
+                    c["v_array"] = c["v_array"][:int(rng.integers(1, 6))]
+                elif kind == "short-qpoints":
+                    iv = int(rng.integers(0, nv))
+                    blocks[iv] = blocks[iv][:int(rng.integers(0, nq))]
+                elif kind == "short-modes":
+                    iv, jq = int(rng.integers(0, nv)), int(rng.integers(0, nq))
+                    if jq == 0 and np_ == 3:
+                        jq = 1                          # (gen_case: nq >= 2 whenever np = 3)
+                    lo = 3 if jq == 0 else 0            # at Gamma keep the acoustic entries: the first non-acoustic read fails
+                    blocks[iv][jq] = blocks[iv][jq][:int(rng.integers(lo, np_))]
+                else:
+                    # only Gamma-ACOUSTIC entries are missing, and only in a header with np = 3 can a Gamma row be that short
+                    # without a later read failing: shrink the header to np = 3 (nq >= 2 so that something is interpolated)
+                    if nq < 2:
+                        # (nq = 1 comes with np >= 6: the new q-point takes Gamma's first three NON-acoustic, power-law, series)
+                        blocks = [vol + [[float(x) * 1.07 for x in vol[0][3:6]]] for vol in blocks]
+                        nq = c["nq"] = 2
+                    blocks = [[row[:3] for row in vol] for vol in blocks]
+                    np_ = c["np"] = 3
+                    iv = int(rng.integers(0, nv))
+                    blocks[iv][0] = blocks[iv][0][:int(rng.integers(0, 3))]
+                c["freqs"] = blocks
+                c["ragged"], c["malformed"], c["stream"], c["shape_kind"] = True, True, "shape-malformed", kind
+                for k_ in ("laws", "law"):
+                    c.pop(k_, None)
+                out.append(c)
+    return out
+
+
+def compare_shape(case, real, model) -> Optional[str]:
+    """outcome kinds; when both return arrays: the arrays (1e-6 of the family scale — small well-conditioned cases)"""
+    if real[0] != "ok" or model[0] != "ok":
+        return None if real[0] == model[0] else f"outcome differs: impl={real[0]} model={model[0]}"
+    for name, a, b in zip(("omega", "gamma", "VdgammadV"), real[1:], model[1:]):
+        if a.shape != b.shape:
+            return f"{name}: shape {a.shape} vs {b.shape}"
+        if a.size == 0:
+            continue
+        sc = max(1.0, float(numpy.nanmax(numpy.abs(a))))
+        ok, err, _ = family_close(a, b, rtol=1e-6, scale=sc)
+        if not ok:
+            return f"{name} differs {err:.3e} of scale {sc:.2f}"
+    return None
 
 
 # ----------------------------------------------------------------------------- model access
@@ -1256,7 +1356,7 @@ def small_ops(ctx: Ctx, res: Result):
 def strip(case) -> dict:
     """replay payload of a case (everything needed to re-run it; floats survive JSON exactly)"""
     keys = ("method", "order", "nq", "np", "volumes", "freqs", "v_array", "law", "laws", "ratio", "acoustic", "ascending", "malformed",
-            "stream", "v_array_base", "grid_perm", "pair", "zero_kind")
+            "stream", "v_array_base", "grid_perm", "pair", "zero_kind", "ragged", "shape_kind")
     return {k: jsonable(case[k]) for k in keys if k in case}
 
 
@@ -1380,6 +1480,30 @@ def run(ctx: Ctx) -> Result:
             if f[0] not in t_sites:
                 t_sites.add(f[0]); add_fail(res, "special", case, f)
     dist["special_streams"] = sdist
+
+    # shape-malformed inputs (no volume; blocks with too few q-points / modes): the exception classes of the real code against the
+    # model's (`interpolateModesF`), and against the independent prediction of where the first missing read is
+    shp = gen_shape_malformed(ctx) if ctx.time_left() > 40 else []
+    shdist: Dict[str, Any] = {}
+    shmodels = ask_model(ctx, shp) if shp else []
+    for case, model in zip(shp, shmodels):
+        real = call_real(case)
+        res.evaluations += 1
+        key = f"{case['shape_kind']}/{case['method']}"
+        shdist.setdefault(key, {})
+        shdist[key][real[0]] = shdist[key].get(real[0], 0) + 1
+        dist["outcome"][real[0]] = dist["outcome"].get(real[0], 0) + 1
+        note = compare_shape(case, real, model)
+        fm = first_missing(case) if case["volumes"] else None
+        if note is None and fm is None and real[0] == "error:IndexError" and case["method"] != "spline" and case["volumes"]:
+            note = "IndexError although every non-acoustic (volume, q, mode) read exists"
+        if note is None and fm is not None and real[0] == "ok":
+            note = f"arrays returned although the read (j, k, volume) = {fm} does not exist"
+        if note:
+            res.disagreements.append(Disagreement("c11.interp", strip(case), real[0] if real[0] != "ok" else "arrays", model[0], note))
+        else:
+            res.traces_validated += 1
+    dist["shape_malformed"] = shdist
 
     # plot: correspondence + oracle on a few power-law and polynomial cases (gamma != V dgamma/dV there)
     pl = [c for c in cases if c["method"] in ("lsq_poly", "krogh", "spline") and c["law"] in ("power", "poly")]
